@@ -149,7 +149,15 @@ fn two(s: &[char], i: usize) -> u32 {
 
 /// plain decimal of the library's documented `nd`: digits, at most one separator after at least one integer digit;
 /// length without padding zeros <= n; decimals (without trailing zeros) <= prec if given; `positive` forbids zero
+/// `nd` has two readings: SWIFT's (at most n characters as written) and the library's documented one (the fraction zeros
+/// its serialisers pad with do not count).  Over-acceptance is judged under the lenient reading, rejection of a valid
+/// content under the strict one (set while that judgement is made): between the two either behaviour is documented.
+pub static STRICT_ND: std::sync::atomic::AtomicBool = std::sync::atomic::AtomicBool::new(false);
+
 pub fn amount_ok(s: &[char], n: usize, prec: Option<usize>, positive: bool) -> bool {
+    if STRICT_ND.load(std::sync::atomic::Ordering::Relaxed) && s.len() > n {
+        return false;
+    }
     let mut i = 0;
     while i < s.len() && s[i].is_ascii_digit() {
         i += 1;
